@@ -885,6 +885,34 @@ func (g *G) c13Loaders(d *c13CDoc, syntaxOverride string) []*c13Loader {
 				return spec, nil
 			}})
 	}
+	// sio again, the source handed over as a Go value (*crew.SpecSource) whose inline specification a tool has compiled with
+	// the no-op interpreters before
+	{
+		inline := d.goSpec(none, c13InlinePat)
+		ls = append(ls, &c13Loader{name: "sio-inline-gotyped-dryrun", force: true, ints: sio.Interpreters,
+			load: func() (*core.Spec, error) { return d.goSpec(none, c13InlinePat), nil },
+			compile: func() (*core.Spec, error) {
+				noopInts := noop.NewInterpreters()
+				noopInts.I.Silent = true
+				inline.Compile(context.Background(), noopInts, true)
+				_, spec, err := sio.ResolveSpecSource(context.Background(), &crew.SpecSource{Inline: inline})
+				return spec, err
+			}})
+	}
+	// a failed compilation first (the host did not know the interpreter yet), then the successful one, on the same Spec value:
+	// what the failed attempt did to the value - patterns already parsed - must not be done again
+	{
+		spec := d.goSpec(js, g.c13TextPat(false, true))
+		ls = append(ls, &c13Loader{name: "go-text-failed-first", force: true, ints: std,
+			load: func() (*core.Spec, error) { return d.goSpec(js, g.c13TextPat(false, true)), nil },
+			compile: func() (*core.Spec, error) {
+				spec.Compile(context.Background(), core.InterpretersMap{}, true)
+				if err := spec.Compile(context.Background(), std, true); err != nil {
+					return nil, err
+				}
+				return spec, nil
+			}})
+	}
 	// hosts that know no interpreter, or only another one: compiled last, after the same sources compiled fine above
 	// (an unknown interpreter is rejected whatever was compiled before)
 	ls = append(ls,
